@@ -83,6 +83,8 @@ int main(int argc, char** argv) {
 		{ std::vector<size_t> b(n, 0); bads.push_back(n > 1 ? b : std::vector<size_t>{1}); }
 		{ std::vector<size_t> b(perm.begin(), perm.end()); b[0] = n; bads.push_back(b); }
 		{ std::vector<size_t> b(perm.begin(), perm.end()); b[n - 1] = (size_t)-1; bads.push_back(b); }
+		// entries that are out of range but equal a valid index modulo 2^32 (or 2^16): the argument is a vector of size_t
+		for (int sh : {32, 40, 63, 16}) { std::vector<size_t> b(perm.begin(), perm.end()); b[rng.below(n)] += (size_t)1 << sh; bads.push_back(b); }
 		bads.push_back({});
 		size_t idx = 0;
 		for (auto& p : perms) {
